@@ -1030,6 +1030,9 @@ impl ParserState {
         self.last_force_bytes_len = usize::MAX;
         self.lexer_stack_top_eos = false;
         self.rows_valid_end = self.num_rows();
+        // rows at and above the new top may be replaced by different ones, so a cached
+        // mask keyed by (lexer state, row index) can no longer be trusted
+        self.bias_cache = None;
 
         self.assert_definitive();
 
